@@ -458,6 +458,9 @@ def run(chk):
     c02.xff_elements(chk, a, "A", "R4.forwarded_recorded")
     # "whatever headers it sends": X-Forwarded-For is found under any capitalisation only because header names are matched case-insensitively
     c02.header_table(chk, a, "A")
+    from . import shared as _sh
+    _sh.every_header_line_stored(chk, a, "R4.every_header_seen", "humphrey::http::request::Request::from_stream_inner", cfg="A")
+    _sh.request_address_fixed(chk, a, "R4.address_of_this_request", cfg="A")
     address_identity(chk, a)
     list_file(chk, a)
     dispatcher(chk, a)
